@@ -384,7 +384,7 @@ func checkXzWriter(prop string) func(a *checkArgs, r *Result) error {
 				d = append(d, genRandom(rng, 66000+rng.Intn(80000))...)
 				d = append(d, genText(rng, 1000+rng.Intn(40000))...)
 			}
-			c := pickXzCfg(rng, 0)
+			c := pickXzCfg(rng, 1+i) // random lc/lp/pb (i%3 != 0 for most)
 			c.Matcher, c.DictCap, c.BlockSize = 0, []int{65536, 1 << 20}[rng.Intn(2)], 0
 			cases = append(cases, xzCase{Op: "xzwrite", Name: fmt.Sprintf("regimes/%d", len(d)), Cfg: c, Data: hxe(d), Parts: partition(rng, len(d))})
 		}
